@@ -315,17 +315,23 @@ Definition best_block_in (sigma : list linfo -> list linfo) (ls : list linfo) : 
     end
   end.
 
-Definition best_block (t : btree) : outcome linfo := best_block_in (fun l => l) (leaf_infos t).
+(* [pi] = the order in which sync.Map.Range visits bt.leaves, [sigma] = the order for lm2 *)
+Definition best_block_ord (pi sigma : list linfo -> list linfo) (t : btree) : outcome linfo :=
+  best_block_in sigma (pi (leaf_infos t)).
+
+Definition best_block (t : btree) : outcome linfo := best_block_ord (fun l => l) (fun l => l) t.
 
 (* BlockTree.BestBlockHash *)
-Definition best_block_hash (t : btree) : outcome N :=
+Definition best_block_hash_ord (pi sigma : list linfo -> list linfo) (t : btree) : outcome N :=
   match nchildren (root t) with
   | [] => Ok (nhash (root t))
-  | _ => match best_block t with
+  | _ => match best_block_ord pi sigma t with
          | Ok i => Ok (l_hash i)
          | Err c => Err c | Panic => Panic | OutOfFuel => OutOfFuel
          end
   end.
+
+Definition best_block_hash (t : btree) : outcome N := best_block_hash_ord (fun l => l) (fun l => l) t.
 
 (* ------------------------------------------------------------------ queries *)
 
